@@ -729,9 +729,9 @@ def run(ctx):
     reached = set()
     drift = {}
     # thorough: the rich template set around the baseline for every kind, plus all pairs of option changes (with the
-    # quick template set) for the two implementations of the scrubbing / validation code (FormulaGrader, SumGrader)
+    # quick template set) for FormulaGrader (whose validation code the other kinds share)
     runs = [(part, 'quick') for part in KINDS] if ctx.quick else \
-        [(part, 'thorough') for part in KINDS] + [('formula', 'pairs'), ('sum', 'pairs')]
+        [(part, 'thorough') for part in KINDS] + [('formula', 'pairs')]
     for part, tier in runs:
         d = os.path.join(ctx.scratch, 'cases_%s_%s' % (part, tier))
         ctx.tlc('expr/MC_Restrictions.tla', 'expr/MC_Restrictions_%s_%s.cfg' % (part, tier), dump=d, timeout=5000)
@@ -751,7 +751,7 @@ def run(ctx):
                 if b is not None:
                     _report(ctx, b)
     # code -> spec
-    n = 2500 if ctx.quick else 20000
+    n = 2500 if ctx.quick else 12000
     per = 50
     items = [(ctx.rng.randrange(2 ** 31), per, i * per) for i in range(n // per)]
     recs = [r for chunk in dump.pmap('engine.adapters.c09', 'trace_chunk', items) for r in chunk]
